@@ -7,9 +7,9 @@
    The model is faithful to the code that exists (epgpy/operator.py, diff.py, functions.py):
    - DiffOperator.__call__ (T, E, S, ScalarOp, MatrixOp ...): one semantics [dstep] for both modes;
    - Operator.__call__ of a non-differentiable operator and of a MultiOperator (since /repo 8521bf9): the
-     operator also acts on every order1/order2 partial carried by the state (Operator._apply_partial; a
-     MultiOperator forwards to its members), in place AND out of place -- out of place on copies, the
-     input's partials are untouched;
+     operator also acts on every order1/order2 partial carried by the state (Operator._apply_partial),
+     in place AND out of place -- out of place on copies, the input's partials are untouched;
+     a MultiOperator called on a state applies its members in turn (since /repo c26a99a);
    - StateMatrix.copy(): states/equilibrium/options copied, partials dropped;
    - simulate(seq, init=sm, max_nstate=n, probe=p): runs on init.copy() with merged options, applies every
      operator in place, records probe values.
@@ -99,16 +99,11 @@ Definition apply_in (n : option nat) (i : dinstr) (d : dstate) : dstate := dstep
    and every partial through prepare(), then applies _apply / _apply_partial to the copies) *)
 Definition apply_out (n : option nat) (i : dinstr) (d : dstate) : dstate := dstep (with_nmax n i) d.
 
-(* MultiOperator: Operator.__call__ + for op in operators: op._apply(sm); every partial goes through
-   for op in operators: op._apply_partial(part)  (no derivative terms are added: only propagation) *)
-Definition multi_main (n : option nat) (l : list dinstr) (d : dstate) : sm S :=
-  run (map (fun i => prim_op (with_nmax n i)) l) (d_main d).
-Definition multi_partial (n : option nat) (l : list dinstr) (s : sm S) : sm S :=
-  fold_left (fun s i => apply_partial (prim_op (with_nmax n i)) s) l s.
-Definition multi_partials {Kt} (n : option nat) (l : list dinstr) (ps : list (Kt * sm S)) : list (Kt * sm S) :=
-  map (fun kv => (fst kv, multi_partial n l (snd kv))) ps.
+(* MultiOperator.__call__ (since /repo c26a99a): the members are called in turn (the first one out of place if requested,
+   the others in place), each with its full semantics -- differentiable members do their derivative bookkeeping, plain
+   members propagate the partials.  Same value in both modes; an empty MultiOperator leaves the state unchanged. *)
 Definition multi_in (n : option nat) (l : list dinstr) (d : dstate) : dstate :=
-  mkD (multi_main n l d) (multi_partials n l (d_p1 d)) (multi_partials n l (d_p2 d)) (d_ok d).
+  fold_left (fun d i => dstep (with_nmax n i) d) l d.
 Definition multi_out (n : option nat) (l : list dinstr) (d : dstate) : dstate := multi_in n l d.
 
 Definition apply_value (vo vs : value) (inplace : bool) : value :=
